@@ -17,6 +17,10 @@ CLAIMED = {
              ref='DESIGN.md section 4 C13'),
  'C03': dict(text='distance_bin, reachdist, breadthdist, efficiency_bin and charpath on symbolic adjacency bits (all directed graphs on <= 4 nodes in one exploration) against Boolean k-step reachability; distance_wei, distance_wei_floyd (None/inv/log), efficiency_wei and rout_efficiency with every cell a symbolic length >= 0 (support and ties symbolic) against the minimum over all enumerated simple paths: distances, infinity iff unreachable, reach flags, zero diagonal, hop counts of some shortest path, mean and mean inverse distance.',
              ref='DESIGN.md section 4 C03'),
+ 'C08': dict(text='betweenness_wei / edge_betweenness_wei with every cell a symbolic length >= 0: each explored path is one support + tie structure (the routines fork on Duw < D[w] / Duw == D[w]) valid for all length assignments realising it; node and edge values are compared exactly (rationals) with a brute-force count over enumerated simple paths whose "is shortest" questions the solver decides under the path condition; binary routines per labelled graph incl. the sum identities; edge routines\' node vector equals the node routines\'.',
+             ref='DESIGN.md section 4 C08'),
+ 'C12': dict(text='distance_wei_floyd on a fully symbolic length matrix (support, lengths, ties; one path thanks to masked views) followed by retrieve_shortest_path(s, t): start, end, every hop along an existing connection, hop count = hops[s,t], summed length = SPL[s,t], empty iff unreachable, for all three transforms; navigation_wu with symbolic lengths and symbolic nodal distances: every stored walk, the three path-length matrices, failure = infinite in all three, success ratio.',
+             ref='DESIGN.md section 4 C12'),
  'C15': dict(text='kcore_bu / kcore_bd / score_wu run on symbolic adjacency bits (all graphs of the size in one exploration), symbolic k (Int) / s and weights (Real); z3 proves membership-meets-bound, output = input restricted to the core, reported size, maximality against all 2^n node subsets, and nestedness for k and k+1; peel lists and k-coreness are checked per labelled graph (bits forked) against an independent peeling.',
              ref='DESIGN.md section 4 C15'),
  'C16': dict(text='get_components / number_of_components on a symbolic symmetric real matrix with arbitrary diagonal: one path per labelled graph on <= 5 nodes (all 1024+), same-label iff connected in the Boolean closure, labels 1..m, sizes, agreement with distance_bin / breadthdist / reachdist, and BCTParamError on every path for asymmetric input.',
